@@ -451,7 +451,7 @@ impl Prop for C13 {
     fn rule() -> String {
         "generated fault placements in a ring of 2..6 modules (ping traffic with ttl started by self timers, latency channels, a joined ticker task \
          per module): 1..3 faults, each = module x {k-th handle_message call (before or after the handler's forwarding), last at_sim_start stage, \
-         at_sim_end, j-th tick of the joined task} x stereotype {HOST, SUBPROCESS}. Oracle: differential against the silent twin (the same model \
+         at_sim_end, j-th tick of the joined task} x stereotype {HOST, SUBPROCESS} (optionally switched to that value inside the panicking callback itself), for at_sim_end optionally after the module shut itself down. Oracle: differential against the silent twin (the same model \
          where the module returns at the placement and ignores every later callback): the complete logs of all modules without a callback fault \
          are equal in both runs; a callback-panicked module logs no message / wake-up afterwards and is inactive; run() does not unwind; its \
          error lists exactly the non-caught panicking modules (PanicError) and the modules whose joined task panicked (JoinError::Paniced), or is \
